@@ -438,8 +438,22 @@ pub fn report(id: &str, cfg: &RunCfg, out: &Outcome) -> i32 {
     }
     let dir = cfg.root.join("replays").join(id);
     let _ = std::fs::create_dir_all(&dir);
-    let mut seen = std::collections::BTreeSet::new();
+    // one line per distinct violation signature (the smallest case found for it), at most 5
+    let mut by_sig: std::collections::BTreeMap<String, &Failure> = std::collections::BTreeMap::new();
     for f in &out.failures {
+        let size = f.case_json.to_string().len();
+        match by_sig.get(&f.sig) {
+            Some(g) if g.case_json.to_string().len() <= size => {}
+            _ => {
+                by_sig.insert(f.sig.clone(), f);
+            }
+        }
+    }
+    let mut chosen: Vec<&Failure> = by_sig.into_values().collect();
+    chosen.sort_by_key(|f| f.case_json.to_string().len());
+    chosen.truncate(5);
+    let mut seen = std::collections::BTreeSet::new();
+    for f in chosen {
         let h = hash64(&f.case_json.to_string());
         if !seen.insert(h) {
             continue;
